@@ -202,8 +202,9 @@ Fixpoint parse_tags_parts (parts : list (list N)) (text : list N) (base : tpos) 
                 let bc := Z.of_N (tp_col base) in
                 let bo := Z.of_N (tp_off base) in
                 mkTag name value
-                      (mkRng (mkPos bl (bc + 1 + Z.of_nat tagStart) (bo + 1 + Z.of_nat tagStart))
-                             (mkPos bl (bc + 1 + Z.of_nat tagEnd) (bo + 1 + Z.of_nat tagEnd)))
+                      (* columns in UTF-16 units of the comment text before the tag, offsets in bytes *)
+                      (mkRng (mkPos bl (bc + 1 + Z.of_N (u16n (firstn tagStart text))) (bo + 1 + Z.of_nat tagStart))
+                             (mkPos bl (bc + 1 + Z.of_N (u16n (firstn tagEnd text))) (bo + 1 + Z.of_nat tagEnd)))
                   :: parse_tags_parts rest text base tagEnd
             end
       end
